@@ -36,8 +36,7 @@ def squash_choice(expr: Expression, _rules: Mapping[str, Rule]) -> Expression:
 def _may_match(choice: ChoiceChoice, chars: set[str]) -> bool:
     """Return `True` if single character `choice` could match one of `chars`."""
     if isinstance(choice, ChoiceRange):
-        start, end = sorted((choice.start, choice.end))
-        return any(start <= ch <= end for ch in chars)
+        return any(choice.start <= ch <= choice.end for ch in chars)
     if isinstance(choice, ChoiceLiteral):
         if choice.case == ChoiceCase.INSENSITIVE:
             return bool(chars & {choice.value.upper(), choice.value.lower()})
